@@ -31,6 +31,17 @@ for mp in sorted(glob.glob(os.path.join(V, "seeded", "*", "meta.json"))):
     t.append("| %s | %s | %s | %s | %s | %s | %s |" % (sid, m.get("property"), esc(m.get("summary", ""))[:400], esc(m.get("needs", ""))[:300],
              "yes" if m.get("caught_by_check") else "NO", esc("; ".join(m.get("caught_by", [])))[:260], esc(notes.get(sid, ""))))
 out["seeded"] = "%d seeded changes, %d caught by the check of the property they break (quick tier).\n\n" % (tot, caught) + "\n".join(t)
+# as-built summary from checks/*.json and the committed evidence
+t = ["| id | property theorems (audited) | obligations | quick: cases / distinct non-trivial / s | open findings | partial: what the theorems do not carry |", "|---|---|---|---|---|---|"]
+for cp in sorted(glob.glob(os.path.join(V, "checks", "C[0-9][0-9].json"))):
+    c = json.load(open(cp)); pid = c["property"]
+    evp = os.path.join(V, "evidence", pid + ".json")
+    ev = json.load(open(evp)) if os.path.exists(evp) else {"coverage": {}}
+    cov = ev.get("coverage", {})
+    opens = [f["key"] for f in kf if f.get("property") == pid and f.get("status") == "open"]
+    t.append("| %s | %d | %s/%s | %s / %s / %s | %s | %s |" % (pid, len(cov.get("theorems", [])), cov.get("discharged", "?"), cov.get("obligations", "?"),
+             cov.get("evaluations", "?"), cov.get("distinct_nontrivial", "?"), ev.get("wall_s", "?"), esc(", ".join(opens)) or "–", esc(c.get("level_note", ""))[:420]))
+out["summary"] = "\n".join(t)
 p = os.path.join(V, "DESIGN.md"); s = open(p).read()
 for name, body in out.items():
     pat = re.compile(r"<!-- gen:%s -->.*?<!-- /gen:%s -->" % (name, name), re.S)
